@@ -482,25 +482,34 @@ void AbstractDiscreteDistribution::discretizeEqualProportions()
   double p = 1. / static_cast<double>(numberOfCategories_);
   for (i = 0; i < numberOfCategories_; i++)
   {
-    if (distribution_.find(values[i]) != distribution_.end())
-    {
-      int j = 1;
-      int f = ((values[i] + NumConstants::TINY()) >= intMinMax_->getUpperBound()) ? -1 : 1;
-      // Separation step: the precision, but not less than a few spacings of the doubles around the
-      // value (a smaller step is absorbed by the addition and the search would never advance).
-      double step = std::max(precision(), 4 * std::numeric_limits<double>::epsilon() * std::abs(values[i]));
-      while (distribution_.find(values[i] + f * j * step) != distribution_.end())
-      {
-        j++;
-        f = ((values[i] + f * j * step) >= intMinMax_->getUpperBound()) ? -1 : 1;
-      }
-      distribution_[values[i] + f * j * step] = p;
-    }
-    else
-      distribution_[values[i]] = p;
+    insertClass_(values[i], p);
   }
 
   return;
+}
+
+/***********************************************************************/
+
+// A new class of probability p, at the given value or, when the map already has an equivalent
+// key (closer than its precision), at the first free position next to it.
+void AbstractDiscreteDistribution::insertClass_(double value, double p)
+{
+  if (distribution_.find(value) != distribution_.end())
+  {
+    int j = 1;
+    int f = ((value + NumConstants::TINY()) >= intMinMax_->getUpperBound()) ? -1 : 1;
+    // Separation step: the precision, but not less than a few spacings of the doubles around the
+    // value (a smaller step is absorbed by the addition and the search would never advance).
+    double step = std::max(precision(), 4 * std::numeric_limits<double>::epsilon() * std::abs(value));
+    while (distribution_.find(value + f * j * step) != distribution_.end())
+    {
+      j++;
+      f = ((value + f * j * step) >= intMinMax_->getUpperBound()) ? -1 : 1;
+    }
+    distribution_[value + f * j * step] = p;
+  }
+  else
+    distribution_[value] = p;
 }
 
 /***********************************************************************/
@@ -535,9 +544,13 @@ void AbstractDiscreteDistribution::discretizeEqualIntervals()
   deque<double> allBounds(bounds_.begin(), bounds_.end());
   allBounds.push_front(lowerBound);
   allBounds.push_back(upperBound);
+  // A domain that carries no mass (condProb is 0, or NaN) is divided into classes of equal
+  // probability, as discretizeEqualProportions does.  On a domain narrower than the precision of
+  // the map the class values are kept distinct, as there.
   for (size_t i = 0; i < numberOfCategories_; ++i)
   {
-    distribution_[values[i]] = (pProb(allBounds[i + 1]) - pProb(allBounds[i])) / condProb;
+    double mass = (condProb > 0) ? (pProb(allBounds[i + 1]) - pProb(allBounds[i])) / condProb : 1. / static_cast<double>(numberOfCategories_);
+    insertClass_(values[i], mass);
   }
 
   return;
